@@ -156,6 +156,7 @@ type EntryResult struct {
 	WallS       float64           `json:"wall_s"`
 	Truncated   bool              `json:"truncated"`
 	MissingReach []string         `json:"missing_reach,omitempty"`
+	OutcomeSamples map[string][]string `json:"outcome_samples,omitempty"`
 }
 
 type intrinsicFn func(x *Exec, fn *ssa.Function, args []Value) Value
@@ -299,8 +300,10 @@ func (l *Loaded) Explore(spec *EntrySpec, activeKnown map[string]bool, workers i
 		return nil, fmt.Errorf("entry %s not found", spec.Name)
 	}
 	if d := os.Getenv("VERIF_DUMPFN"); d != "" {
-		if f := l.findFunc(d); f != nil {
-			f.WriteTo(os.Stderr)
+		for f := range ssautil.AllFunctions(l.prog) {
+			if f.Name() == d {
+				f.WriteTo(os.Stderr)
+			}
 		}
 	}
 	if !spec.NoInit {
@@ -507,6 +510,12 @@ func (e *Engine) record(x *Exec, out abortSig, pr *pathReport) {
 		}
 	}
 	r.Outcomes[kind]++
+	if r.OutcomeSamples == nil {
+		r.OutcomeSamples = map[string][]string{}
+	}
+	if len(r.OutcomeSamples[kind]) < 2 {
+		r.OutcomeSamples[kind] = append(r.OutcomeSamples[kind], encodeDec(x.dec[:min(x.pos, len(x.dec))])+" "+out.Msg)
+	}
 	if isViol {
 		r.Completed++
 		r.Nontrivial++
